@@ -17,6 +17,7 @@ Clause → theorem
 | a TWA record read directly is activity-tested on the same variable | `twa_reads_test_own_activity`, `twa_reads_found_checked`, `twa_reads_pinned` |
 | sweeps / auction starters skip controlled apps | `sweeps_skip_controlled`, `sweeps_pinned` |
 | what the code guards beyond the text | `breaker_guarded_pinned`, `esm_guarded_pinned` |
+| the liquidated vault is tied to the app whose breaker / ESM status was checked (gen-1 sweep, MsgLiquidateVault) | `liquidation_vault_tied_to_checked_app`, `app_ties_pinned` |
 | SCOPE: every message of ANY module that can write a vault / locker / lend / borrow record (regenerated inventory) is breaker-guarded on every route or reviewed; the text's operations are among the writers; non-message writers pinned | `position_writers_breaker_guarded`, `breaker_unguarded_writers_tight`, `breaker_list_writes_positions`, `nonmsg_position_writers_pinned` |
 
 The expected lists are written out here from the property text (`breakerRefused`, `esmRefused`, `coolOffRefused`) and proved
@@ -348,5 +349,18 @@ theorem nonmsg_position_writers_pinned :
        ("blocker", "liquidation.BeginBlocker", false), ("blocker", "liquidationsV2.BeginBlocker", true)] := by decide +kernel
 
 example : (entryPoints.filter fun e => e.kind == "msg" && e.posWrites).length = 34 := by decide +kernel
+
+/-! ## the liquidated position is tied to the app whose controls were checked (seed s115) -/
+
+/-- In the gen-1 sweep `LiquidateVaults` and in `MsgLiquidateVault` the breaker / ESM status is read for ONE app id expression
+(`appIds[i]` resp. `appID`); the vault that is then liquidated is tied to exactly that expression by a failing comparison
+`vault.AppId != <that expression>`. Comparing the vault's app with anything else (its extended pair's app, …) lets a controlled
+app's vault be liquidated during another app's iteration or by a message that names another app. -/
+theorem liquidation_vault_tied_to_checked_app : ∀ t ∈ appTies, t.found = true ∧ t.tied = true := by decide +kernel
+
+theorem app_ties_pinned :
+    appTies.map (fun t => (t.module, t.fn, t.checked, t.lhs, t.rhs)) =
+      [("liquidation", "LiquidateVaults", "appIds[i]", "vault.AppId", "appIds[i]"),
+       ("liquidation", "MsgLiquidateVault", "appID", "vault.AppId", "appID")] := by decide +kernel
 
 end Comdex.C14
